@@ -36,7 +36,7 @@ ASSUMPTIONS = ["a stepping request is acknowledged only after its save; a write 
                "crash modelled in-process; the thorough tier replays a sample with each incarnation in a child process on a real directory"]
 FAULT_KINDS = ["crash_between_requests", "second_crash", "crash_before_open", "torn:zero", "torn:one", "torn:header", "torn:inner", "torn:last",
                "lost_write", "stray_file"]
-PROBES = ["second_session_in_instance", "restored_with_settings_history", "restored_instance_stepped", "torn_inside_inner_string", "damaged_file_contained",
+PROBES = ["whole_server_save_state", "second_session_in_instance", "restored_with_settings_history", "restored_instance_stepped", "torn_inside_inner_string", "damaged_file_contained",
           "startup_with_stray_file", "several_instances_restored", "never_externalised_instance_exempt", "long_history_restored"]
 THOROUGH_PROBES = ["child_process_cross_check"]
 EXHAUSTIVE = {"quick": False, "thorough": False}
@@ -66,7 +66,7 @@ def gen_history(seed, long=False):
             return {"smA": {scen: {"points": {"tbl": [[0.0, rng.choice([1.0, 2.0])], [6.0, 4.0], [12.0, 0.0]]}}}}
         s = [{"inst": j, "op": "create"},
              {"inst": j, "op": "begin", "scenarios": [scen], "equations": rng.sample(eqs, rng.randint(2, len(eqs))),
-              "settings": (sett() or {}) if rng.random() < 0.3 else {}}]
+              "settings": (sett() or sett() or {}) if (with_settings and rng.random() < 0.6) else {}}]
         n = rng.randint(2, 5) if not long else 3
         for _ in range(n):
             r = rng.random()
@@ -102,6 +102,18 @@ def gen_history(seed, long=False):
         ops.append(streams[j][idx[j]])
         idx[j] += 1
     ops = ops[:16]
+    if rng.random() < 0.35:
+        # GET /save-state: every instance is externalised as it is, also a session that has not been stepped yet.
+        # Placed where every instance created so far has a session (the route cannot save a session-less instance).
+        ok_pos = []
+        for pos in range(1, len(ops) + 1):
+            created = {o["inst"] for o in ops[:pos] if o["op"] == "create"}
+            begun = {o["inst"] for o in ops[:pos] if o["op"] == "begin"}
+            if created and created <= begun:
+                ok_pos.append(pos)
+        if ok_pos:
+            # often right after the sessions were begun, before anybody stepped
+            ops.insert(ok_pos[0] if rng.random() < 0.5 else rng.choice(ok_pos), {"inst": -1, "op": "save_state"})
     return {"property": PROPERTY,
             "config": {"adapter": adapter, "list_order": rng.choice(["insertion", "sorted", "reversed"]),
                        "model": {"template": template, "start": 1.0, "stop": 30.0 if not long else 2000.0, "dt": 1.0,
@@ -111,7 +123,7 @@ def gen_history(seed, long=False):
 
 def variants(ops, k, rng):
     out = [None]
-    if 1 <= k <= len(ops) and ops[k - 1]["op"] in SAVING:
+    if 1 <= k <= len(ops) and ops[k - 1]["op"] in SAVING + ("save_state",):
         out += [{"kind": "crash_before_open"}, {"kind": "lost_write"}] + [{"kind": "torn", "cls": c} for c in TORN_CLASSES]
     return out
 
@@ -175,6 +187,8 @@ def generate(spec):
 def _do(w, ids, o, res=None):
     j = o["inst"]
     op = o["op"]
+    if op == "save_state":
+        return w.get("/save-state")
     if op == "create":
         r = w.post("/start-instance", {"timeout": {"hours": 12}})
         if r.status == 200 and isinstance(r.body, dict):
@@ -423,7 +437,7 @@ def execute(case):
         tn += 1
         tmap[n] = twin_out.get(tn)
     # ---- per instance verdicts
-    insts = sorted({o["inst"] for o in ops})
+    insts = sorted({o["inst"] for o in ops if o["inst"] >= 0})
     compared = 0
     begin = {o["inst"]: o for o in ops if o["op"] == "begin"}
     fault_inst = ops[k - 1]["inst"] if (fault is not None and 1 <= k <= len(ops)) else None
@@ -445,7 +459,8 @@ def execute(case):
         # a session that was begun but has not been stepped yet at the crash is not externalised: the durable
         # state still holds the previous session, which the property does not ask to be continued
         last_begin = max([n for n, o in enumerate(ops, start=1) if o["inst"] == j and o["op"] == "begin" and n <= kk] or [0])
-        last_save = max([n for n, o in enumerate(ops, start=1) if o["inst"] == j and o["op"] in SAVING and n <= kk and n != dropped] or [0])
+        last_save = max([n for n, o in enumerate(ops, start=1) if (o["inst"] == j and o["op"] in SAVING or o["op"] == "save_state")
+                         and n <= kk and n != dropped] or [0])
         if last_begin > last_save and last_save > 0:
             return "never_externalised"
         if j in dam:
@@ -515,6 +530,8 @@ def execute(case):
                                                            "stray": crash.get("stray"), "instance_status": status,
                                                            "restarted": [g[0], str(g[1])[:220]], "twin": [t[0], str(t[1])[:220]]})
                 break
+    if any(o["op"] == "save_state" for o in ops[:k]):
+        res.probe("whole_server_save_state")
     if restored >= 2:
         res.probe("several_instances_restored")
     if any(sum(1 for o in ops if o["inst"] == j and o["op"] == "begin") > 1 for j in insts):
@@ -534,8 +551,15 @@ def shrink(case):
     for cand_idx in shrink_list(list(range(len(ops)))):
         keep = set(cand_idx)
         new_ops = [o for n, o in enumerate(ops) if n in keep]
-        insts = {o["inst"] for o in new_ops}
+        insts = {o["inst"] for o in new_ops if o["inst"] >= 0}
         ok = True
+        for n_, o_ in enumerate(new_ops):
+            if o_["op"] == "save_state":
+                # the route cannot save an instance without a session: keep it only where everybody has begun
+                created = {x["inst"] for x in new_ops[:n_] if x["op"] == "create"}
+                begun = {x["inst"] for x in new_ops[:n_] if x["op"] == "begin"}
+                if not created or not created <= begun:
+                    ok = False
         for j in insts:
             seq = [o["op"] for o in new_ops if o["inst"] == j]
             if seq[:1] != ["create"] or (len(seq) > 1 and seq[1] != "begin"):
@@ -582,7 +606,7 @@ def trigger(case, v, f):
     if t == "compressed_and_nonuniform_settings":
         if case["config"]["adapter"] != "compressed":
             return False
-        for j in {o["inst"] for o in ops}:
+        for j in {o["inst"] for o in ops if o["inst"] >= 0}:
             shapes = set()
             for o in ops:
                 if o["inst"] == j and o["op"] in SAVING:
